@@ -203,8 +203,12 @@ class EndpointResponseHandlerGenerator:
         # Look up in schemas
         if base_type in self.schemas:
             schema = self.schemas[base_type]
-            # Dataclasses have properties or are object type
-            return getattr(schema, "type", None) == "object" or bool(getattr(schema, "properties", None))
+            # Dataclasses have properties or are object type; enum members have to be looked up by value as well
+            return (
+                getattr(schema, "type", None) == "object"
+                or bool(getattr(schema, "properties", None))
+                or bool(getattr(schema, "enum", None))
+            )
 
         # Heuristic: uppercase names are likely models (not primitives)
         return base_type[0].isupper() and base_type not in {"Dict", "List", "Union", "Tuple", "Optional"}
@@ -235,6 +239,10 @@ class EndpointResponseHandlerGenerator:
 
             base_type = inner_type.strip()
 
+        # Formatted strings are annotated with a Python type of their own: the JSON text has to be converted
+        if base_type in {"datetime", "date"}:
+            return True
+
         # Skip primitive types and built-ins (both uppercase and lowercase)
         if base_type in {
             "str",
@@ -259,14 +267,20 @@ class EndpointResponseHandlerGenerator:
 
         # Check if this is a primitive type alias - these should use cast()
         if self._is_type_alias_to_primitive(type_name):
-            return False
+            # ... unless the alias stands for a formatted string annotated as datetime / date / UUID
+            alias_schema = self.schemas.get(type_name.split("[")[0])
+            return getattr(alias_schema, "format", None) in {"date-time", "date", "uuid"}
 
         # NEW LOGIC: For array type aliases, check if the item type needs deserialisation
         if self._is_type_alias_to_array(type_name):
             # Extract item type from List[ItemType] or from the type alias schema
             item_type = self._extract_array_item_type(type_name)
             # Check if item type is a dataclass that needs .from_dict()
-            return self._is_dataclass_type(item_type)
+            if self._is_dataclass_type(item_type):
+                return True
+            # ... or a formatted string that is annotated as datetime / date / UUID
+            items_schema = getattr(self.schemas.get(type_name.split("[")[0]), "items", None)
+            return getattr(items_schema, "format", None) in {"date-time", "date", "uuid"}
 
         # All custom model types use cattrs via Meta class for automatic field mapping
         # Check if it's a model type (contains a dot indicating it's from models package)
